@@ -162,8 +162,9 @@ def harmonic_set(a: PointTensor, b: PointTensor, c: PointTensor) -> PointTensor:
 
         l = join(a, b)
 
-    m = join(o, c)
-    p = o + 1 / 2 * m.direction
+    # a third point of the line oc: the sum of the coordinate vectors of o and c is a multiple of neither
+    # (o + 1/2 * direction could coincide with c)
+    p = PointCollection.from_array(o.normalized_array + c.normalized_array)
     result = l.meet(join(meet(o.join(a), p.join(b)), meet(o.join(b), p.join(a))))
 
     if n > 3:
